@@ -114,3 +114,26 @@ def all_scale_strength_under_contract(res, contracts):
                         missing.append(f"{rel}::{cd.name}.{fn.name}")
     add_direct(res, "frame:every-scale-strength-under-contract", "frame", not missing, undecided=bool(missing),
                note="every scaling implementation of the package has a C15 contract", detail="; ".join(missing))
+
+
+def bulk_accessor_defined_with_per_sample(res, classes, item="class"):
+    """a wrapper that rewrites `getitem_<item>` must define `getall_<item>` itself: otherwise the bulk accessor is
+    resolved through __getattr__ to the wrapped dataset and returns the labels the wrapper was meant to replace"""
+    from .engine import Engine
+    eng = Engine()
+    for rel, cls in classes:
+        clsid = f"{rel}::{cls}"
+        name = f"{clsid}:frame:bulk-accessor-overridden-with-per-sample-accessor"
+        try:
+            mro = [c for c in eng.mro(clsid) if "::" in c]
+        except KeyError as ex:
+            add_direct(res, name, "frame", False, undecided=True, detail=f"class not found: {ex}")
+            continue
+        own = [c for c in mro if not c.endswith("::KDWrapper") and not c.endswith("::KDDataset")]
+        has_item = any(class_defines(eng, c, f"getitem_{item}") == c for c in own)
+        has_all = any(class_defines(eng, c, f"getall_{item}") == c for c in own)
+        add_direct(res, name, "frame", (not has_item) or has_all, where=rel,
+                   note=f"{cls}: getall_{item} is defined wherever getitem_{item} is rewritten",
+                   detail="" if (not has_item or has_all) else
+                   f"{cls} defines getitem_{item} but inherits getall_{item} from the wrapped dataset through __getattr__",
+                   model=None if (not has_item or has_all) else {"class": cls})
